@@ -302,6 +302,7 @@ structure State where
   tree : Tree
   nodes : List GNode
   edges : List Edge
+deriving DecidableEq
 
 /-- `g.AddNode`. -/
 def State.addNode (st : State) (v : Version) : State × Nat :=
